@@ -79,6 +79,20 @@ def gen_grammar(
     return out
 
 
+def gen_acyclic_grammar(rng, no_unit: bool = False, **kw) -> Grammar:
+    """well-formed grammar without cyclic unit/nullable derivations (A =>+ A), which neither the Earley
+    parser's tree extraction nor the external grammar_graph library support.  `no_unit` additionally
+    excludes unit alternatives below <start> (the external grammar_graph library mis-handles some of them)."""
+    for _ in range(2000):
+        g = gen_grammar(rng, **kw)
+        if is_cyclic(g):
+            continue
+        if no_unit and any(is_nt(a) and len(split_expansion(a)) == 1 for k, alts in g.items() if k != "<start>" for a in alts):
+            continue
+        return g
+    raise RuntimeError("no acyclic grammar generated")
+
+
 def nullable_set(c: Canon) -> set:
     nullable = set()
     changed = True
